@@ -10,6 +10,7 @@
    list (blank pages, page types, geometry, counters).  `css` selects the reading
    of "change of named page": true = CSS Page 3. *)
 From Verif Require Import Layout.Paginate Layout.PaginateSpec Layout.PaginateProofs.
+From Verif Require Import Layout.PaginateCounters Layout.PaginateCountersProofs.
 From Coq Require Import List ZArith NArith QArith Arith.
 Import ListNotations.
 Local Open Scope nat_scope.
@@ -257,3 +258,48 @@ Example C12_example_retry_reserve :
   let us := lin_flows [Para 1 20 1 1; Blk 0 0 0 15 BAuto BAuto BAuto 0 [Para 2 20 1 1]] in
   reserve true us (fun _ => false) 60 0 2 = 15%Z /\ reserve true us (fun _ => false) 60 0 1 = 0%Z.
 Proof. split; reflexivity. Qed.
+
+(* --- counters in page-margin boxes (Layout/PaginateCounters.v: makeMarginBoxes pages.go:418-461
+   + UpdateCounters build.go:903-954).  A margin rule may manipulate counters (counter-reset /
+   counter-set / counter-increment, e.g. an offset numbering); this only affects the content of
+   that margin box: every margin box starts from a copy of the page's counter state.  So the
+   numbers a margin box shows are those it shows as the only margin box of the page, whatever
+   the rules of the boxes generated before and after it ... *)
+Theorem C12_margin_boxes_independent : forall cv pre b post,
+  nth (length pre) (margin_texts cv (pre ++ b :: post)) [] = nth 0 (margin_texts cv [b]) [].
+Proof. exact margin_boxes_independent_proof. Qed.
+Print Assumptions C12_margin_boxes_independent.
+
+(* ... in particular counter(page), in every margin box whose own rule does not manipulate
+   `page`, is the position of the page, and counter(pages) is the number of pages in every
+   margin box (operations on `pages` are ignored in a margin context) *)
+Theorem C12_margin_page_counter : forall i total pre b post k,
+  touches b c_page = false ->
+  nth_error (mb_reads b) k = Some (RCounter c_page) ->
+  nth_error (nth (length pre) (margin_texts (page_values i total) (pre ++ b :: post)) []) k
+  = Some [Z.of_nat (S i)].
+Proof. exact margin_page_counter_proof. Qed.
+Print Assumptions C12_margin_page_counter.
+
+Theorem C12_margin_pages_counter : forall i total pre b post k,
+  nth_error (mb_reads b) k = Some (RCounter c_pages) ->
+  nth_error (nth (length pre) (margin_texts (page_values i total) (pre ++ b :: post)) []) k
+  = Some [Z.of_nat total].
+Proof. exact margin_pages_counter_proof. Qed.
+Print Assumptions C12_margin_pages_counter.
+
+(* the same loop with ONE state for all the margin boxes of a page (no copy) computes the same
+   texts when no margin rule has a counter-* declaration -- the ordinary footers cannot tell
+   the two apart -- and other texts as soon as one has:
+   @top-left { counter-increment: page 100; content: counter(page) } makes
+   @bottom-center { content: counter(page) "/" counter(pages) } show 101/3 on page 1 of 3 *)
+Theorem C12_margin_shared_state_agrees_without_ops : forall bs cv,
+  forallb no_ops bs = true -> margin_texts_shared cv bs = margin_texts cv bs.
+Proof. exact shared_agrees_without_ops. Qed.
+Print Assumptions C12_margin_shared_state_agrees_without_ops.
+
+Theorem C12_margin_shared_state_refuted :
+  margin_texts (page_values 0 3) [ex_top_left; ex_bottom_center] = [[[101%Z]]; [[1%Z]; [3%Z]]] /\
+  margin_texts_shared (page_values 0 3) [ex_top_left; ex_bottom_center] = [[[101%Z]]; [[101%Z]; [3%Z]]].
+Proof. exact shared_state_refuted_proof. Qed.
+Print Assumptions C12_margin_shared_state_refuted.
